@@ -18,7 +18,6 @@ This module also hosts the helpers shared with harness/c12.py (model registry, t
 driver access with pre-rendered model tables, result decoding).
 """
 import collections
-import itertools
 import json
 import os
 import re
@@ -705,7 +704,7 @@ def run(chk):
                  '(a / x :ARG1-of (w / include-91 :ARG2 (b / y)))', '(a / x :ARG2-of (w / include-91 :ARG1 (b / y)))']:
         jobs.append(('amr', 'named', text))
     # ---- random ----------------------------------------------------------------------------------
-    n_amr, n_mini, n_def, n_tab, per_tab, n_coll = ((12000, 3000, 1500, 300, 30, 4000) if quick
+    n_amr, n_mini, n_def, n_tab, per_tab, n_coll = ((20000, 5000, 2000, 400, 30, 8000) if quick
                                                     else (150000, 30000, 10000, 3000, 40, 50000))
     for _ in range(n_amr):
         jobs.append(('amr', 'random', random_node(rng, amr)))
